@@ -427,6 +427,15 @@ func cmdCheck(args []string) int {
 		}
 		ss := samplesByDir[dir]
 		for i := range ss {
+			if schedDep[ss[i].Harness] {
+				// draws made by several goroutines are consumed in a
+				// schedule-dependent order natively: passing samples of
+				// such harnesses are not replayed
+				if len(sampleOut) < 12 {
+					sampleOut = append(sampleOut, ss[i])
+				}
+				continue
+			}
 			cases = append(cases, nativeCase{Harness: ss[i].Harness, Vector: ss[i].Vector})
 			metas = append(metas, meta{kind: "sample", sample: &ss[i]})
 		}
